@@ -283,7 +283,7 @@ Json gen(uint64_t seed, const std::string &tier)
             int budget = 2 + (int)g.below(maxdeg - 1);
             std::vector<Poly> used;
             bool same_degree = g.chance(1, 2);
-            int d0 = 1 + (int)g.below(3);
+            int d0 = 1 + (int)g.below(p == 2 ? 4 : 3); // p = 2: up to two quartics in degree 8
             while (budget > 0) {
                 int d = same_degree ? d0 : 1 + (int)g.below(std::min(4, budget));
                 if (d > budget)
